@@ -118,6 +118,21 @@ def geometries(tier):
                 if a <= n and b <= n:
                     big += [((n, n), (a, n), (n, b)), ((n, n), (n, a), (b, n)), ((n, n + 1), (a, n + 1), (n, b))]
     yield big
+    # mixed geometries: one axis shrinks from a partial read chunk while the other grows (multi-stage plans whose
+    # first copy must align with the FIRST intermediate stage, not with the final write chunks)
+    mixed = []
+    Ns = (12, 20) if tier == "quick" else (12, 20, 30, 42)
+    for N in Ns:
+        for M in (6, 12):
+            for s0 in (5, 6, 7, 9, 10):
+                for t0 in (1, 2, 3, 4):
+                    for s1 in (1, 2):
+                        for t1 in (M, M // 2):
+                            if s0 < N and t0 < s0:
+                                mixed.append(((N, M), (s0, s1), (t0, t1)))
+                                mixed.append(((M, N), (s1, s0), (t1, t0)))
+    for i in range(0, len(mixed), 200):
+        yield mixed[i:i + 200]
     d3 = 3 if tier == "quick" else 4
     for shape in itertools.product(range(1, d3 + 1), repeat=3):
         yield [(shape, sc, tc) for sc in itertools.product(*[range(1, k + 1) for k in shape]) for tc in itertools.product(*[range(1, k + 1) for k in shape])]
